@@ -18,7 +18,8 @@ RECLAIM = ("box_from_raw", "arc_from_raw", "vec_from_raw_parts", "drop_in_place"
 INTO_INNER = "cglue::trait_group::IntoInner::into_inner"
 
 
-PASS_THROUGH = ("Option::<T>::take", "Option::<T>::unwrap", "std::ops::Try::branch", "cglue::arc::CArc::<T>::take", "Option::<T>::as_ref", "Option::<T>::as_mut")
+PASS_THROUGH = ("Option::<T>::take", "Option::<T>::unwrap", "std::ops::Try::branch", "cglue::arc::CArc::<T>::take", "Option::<T>::as_ref", "Option::<T>::as_mut",
+                "ManuallyDrop::<T>::new", "std::ops::Deref::deref", "std::ops::DerefMut::deref_mut", "std::mem::take")
 
 
 def arg_roots(o):
